@@ -36,6 +36,13 @@ MCHStep(t) ==
 MCHNext == \E t \in Threads : MCHStep(t)
 MCHSpec == HInit /\ [][MCHNext]_<<allv, hbv>>
 
+\* reachability witnesses (NOT invariants: use them in a scratch cfg to see that a path is covered - TLC must violate them)
+\* the BiPropNode load saw kCompleted (the dependent is skipped)
+W_NoLdSkip == ~(\E t \in Threads : phase = "eval" /\ stk[t] # <<>> /\ Top(t).pc = "ld"
+                                   /\ ninc[dep[Top(t).n][Top(t).i]] = Completed)
+\* a second evaluation runs a node whose predecessor was complete before it (its data cell is from evaluation 1)
+W_NoOldPred == ~(nevals = 2 /\ \E n \in alive : began[n] = 1 /\ \E q \in Range(apred[n]) : q \notin expected)
+
 \* graph shapes: <<predecessor, successor>>
 Diamond == {<<1, 2>>, <<1, 3>>, <<2, 4>>, <<3, 4>>}
 Join3 == {<<1, 4>>, <<2, 4>>, <<3, 4>>}                 \* three predecessors of one node (release sequence of 3 RMWs)
